@@ -27,7 +27,8 @@ PLAN = {
 RULE_TEXT = (
     'scenario = 50% C03 sequences, 50% dedicated "one model, 2-6 consecutive '
     'AddField / DeleteField / ChangeField (no type change, no db_column) / '
-    'ChangeMeta, spread over 1-4 evolution labels"; non-trivial = the '
+    'ChangeMeta (40% of them AddField / ChangeField only, where nothing is '
+    'excused), spread over 1-4 evolution labels"; non-trivial = the '
     'one-at-a-time continuation rebuilt some table at least once and the '
     'optimised run was accepted; distinct = ordered mutation kinds + cut '
     'points digest.')
@@ -41,6 +42,13 @@ ASSUMPTIONS = [
 MERGEABLE = {'AddField': 4, 'DeleteField': 3, 'ChangeField': 4,
              'ChangeMeta': 3, 'RenameField': 0, 'RenameModel': 0,
              'DeleteModel': 0, 'NewModel': 0, 'SQLMutation': 0}
+
+
+# configuration outside the recorded mergeable_ops typo (no DeleteField, no
+# ChangeMeta): every sequence must be carried out with one rebuild
+ADD_CHANGE = {'AddField': 4, 'ChangeField': 6, 'DeleteField': 0,
+              'ChangeMeta': 0, 'RenameField': 0, 'RenameModel': 0,
+              'DeleteModel': 0, 'NewModel': 0, 'SQLMutation': 0}
 
 
 def is_mergeable_only(scn):
@@ -70,8 +78,9 @@ def generate(seed, index, tier):
     if rng.random() < 0.5:
         scn = c03.gen_scenario(rng)
     else:
-        scn = c03.gen_scenario(rng, dense=False, ops=MERGEABLE,
-                               one_model=True)
+        scn = c03.gen_scenario(rng, dense=False, one_model=True,
+                               ops=ADD_CHANGE if rng.random() < 0.4
+                               else MERGEABLE)
         # no type changes / db_column in the dedicated configuration
         scn['muts'] = [m for m in scn['muts']
                        if not (m['op'] == 'ChangeField' and (
